@@ -384,6 +384,43 @@ def held_at(ctx, key, body, site, lock_field, desc, mode=None, rule='K5-held-at'
                   body.loc(site))
 
 
+def _held(body, site, lock_field, mode=None):
+    for (l, ty, cls) in guards_live_at(body, site):
+        if lock_field in cls:
+            gk = core.guard_kind(ty) or ''
+            if mode == 'write' and gk not in ('RwLockWriteGuard', 'MutexGuard'):
+                continue
+            return True
+    return False
+
+
+def held_at_lifted(ctx, key, F, body, site, lock_field, desc, mode=None, rule='K5-held-at', depth=3):
+    """like held_at, but a helper that does not take the lock itself is fine if EVERY call chain to it comes from a site where the
+    guard is live (the code was moved into a private function; the caller still holds the lock around the call)."""
+    def ok_at(b, s, d):
+        if _held(b, s, lock_field, mode):
+            return True, ''
+        if d <= 0:
+            return False, 'call chain too deep at %s' % b.path
+        callers = [(cb, bi) for cn in F.callers(b.path) for cb in [F.body(cn)] if cb is not None for bi, t in cb.calls()
+                   if bi in cb.normal_blocks() and b.path in call_names(t)]
+        # a closure body is entered where the closure is used: its defining function
+        if not callers and '{closure' in b.path:
+            pb = F.body(strip_closures(b.path))
+            if pb is not None:
+                use = [bi for bi, t in pb.calls() if bi in pb.normal_blocks() and any(b.path == c for c in closure_operands(pb, t))]
+                callers = [(pb, bi) for bi in use]
+        if not callers:
+            return False, 'no guard of %s live at %s in %s and no caller to lift to' % (lock_field, b.loc(s), b.path)
+        for cb, bi in callers:
+            o, why = ok_at(cb, bi, d - 1)
+            if not o:
+                return False, 'called from %s at %s without the guard (%s)' % (cb.path, cb.loc(bi), why)
+        return True, ''
+    ok, why = ok_at(body, site, depth)
+    return ctx.ob(key, rule, body.path, desc, ok, why, body.loc(site))
+
+
 def same_guard_at(ctx, key, body, sites, lock_field, desc, mode=None, rule='K5-one-guard'):
     """one single guard local of lock_field is live at all `sites` (atomic publication)."""
     common = None
@@ -715,6 +752,22 @@ def must_pass_chain(ctx, key, body, steps, desc, removed_edges=frozenset(), rule
     return ctx.ob(key, rule, body.path, desc, True, '', body.loc())
 
 
+_OPTION_SHAPE = re.compile(r'Option::<.*>::(as_ref|as_mut|as_deref|as_deref_mut|map|copied|cloned)$|ops::function::FnOnce|Deref')
+
+
+def _option_helper_of(F, calls, field, depth=2):
+    """is one of `calls` a crate function that returns the Option behind `field` with its Some/None-ness unchanged
+    (`self.field.as_ref().map(|x| x.write())`: a guard-taking helper)?"""
+    for c in calls:
+        hb = F.bodies.get(c)
+        if hb is None or not str(hb.locals[0]).startswith('std::option::Option<'):
+            continue
+        sl = backward_slice(hb, [[0]])
+        if field in sl.fields and all(_OPTION_SHAPE.search(x) or x in F.bodies and '{closure' in x for x in sl.calls):
+            return True
+    return False
+
+
 def prune_option_field(body, field, keep_some):
     """assume the Option behind `field` is Some (keep_some) / None: edges to remove for switches on
     a discriminant whose backward slice (no binops) contains `field`."""
@@ -727,15 +780,24 @@ def prune_option_field(body, field, keep_some):
         if not d or d[2] != 'assign' or d[3]['r']['k'] != 'discr':
             continue
         sl = backward_slice(body, [d[3]['r']['p']])
-        if field not in sl.fields:
+        if field not in sl.fields and not _option_helper_of(body.facts, sl.calls, field):
+            continue
+        # which discriminant value stands for "the Option is Some": 1 for an Option; 0 (Ok / Continue) when the Option was turned
+        # into a Result with ok_or / ok_or_else and is looked at through `?` or a match on the Result
+        ty = str(body.locals[d[3]['r']['p'][0]]).lstrip('&')
+        if ty.startswith('std::option::Option<'):
+            some_v = 1
+        elif (ty.startswith('std::result::Result<') or ty.startswith('std::ops::ControlFlow<')) and any(re.search(r'Option::<.*>::ok_or(_else)?$', c) for c in sl.calls):
+            some_v = 0
+        else:
             continue
         for v, tg in zip(t['vals'], t['ts']):
-            if (v == 1) != bool(keep_some):
+            if (v == some_v) != bool(keep_some):
                 removed.add((bi, tg))
         # the otherwise edge stands for the other variant when only one value is listed
         if len(t['vals']) == 1:
             other = t['ts'][-1]
-            listed_is_some = (t['vals'][0] == 1)
+            listed_is_some = (t['vals'][0] == some_v)
             if listed_is_some == bool(keep_some):
                 removed.add((bi, other))
     return removed
@@ -1296,6 +1358,23 @@ def field_effect_sites(body, pats, field, argi=0):
         elif any(c in reach for c in closure_operands(body, t)):
             res.append(bi)
     return res
+
+
+def bodies_of(F, fn):
+    """the body of `fn` and the bodies of the closures written in it (an iterator chain instead of a loop moves code into one)"""
+    b = F.body(fn)
+    if b is None:
+        return []
+    return [b] + [F.bodies[p] for p in sorted(F.bodies) if p.startswith(fn + '::{closure') ]
+
+
+def closure_use_sites(F, cl):
+    """[(parent body, block)] where the closure body `cl` is handed to a call in the function it is written in"""
+    pb = F.body(strip_closures(cl.path))
+    if pb is None:
+        return []
+    direct = F.body(re.sub(r'::\{closure#\d+\}$', '', cl.path)) or pb
+    return [(direct, bi) for bi, t in direct.calls() if bi in direct.normal_blocks() and cl.path in closure_operands(direct, t)]
 
 
 def family(F, root):
